@@ -246,12 +246,36 @@ pub open spec fn other_indexes_unchanged(a: DbView, b: DbView, i: u16) -> bool {
     forall|k: AKey| k.index != i ==> (#[trigger] a.contains_key(k) == b.contains_key(k) && (a.contains_key(k) ==> a[k] == b[k]))
 }
 
-/// `keys` is exactly the ascending listing of the keys of `v` under `p`
-pub open spec fn is_listing(v: DbView, p: Prefix, keys: Seq<AKey>) -> bool {
-    (forall|i: int, j: int| 0 <= i < j < keys.len() ==> akey_lt(keys[i], keys[j]))
-    && (forall|i: int| 0 <= i < keys.len() ==> v.contains_key(#[trigger] keys[i]) && p.matches(keys[i]))
-    && (forall|k: AKey| #[trigger] v.contains_key(k) && p.matches(k) ==> keys.contains(k))
+// ---- key selections: prefixes and ranges ---------------------------------------------------------
+pub enum Bound { Unbounded, Incl(AKey), Excl(AKey) }
+pub enum Sel { Pre(Prefix), Rng(Bound, Bound) }
+pub open spec fn akey_le(a: AKey, b: AKey) -> bool { !akey_lt(b, a) }
+impl Sel {
+    pub open spec fn has(self, k: AKey) -> bool {
+        match self {
+            Sel::Pre(p) => p.matches(k),
+            Sel::Rng(lo, hi) =>
+                (match lo { Bound::Unbounded => true, Bound::Incl(a) => akey_le(a, k), Bound::Excl(a) => akey_lt(a, k) })
+                && (match hi { Bound::Unbounded => true, Bound::Incl(b) => akey_le(k, b), Bound::Excl(b) => akey_lt(k, b) }),
+        }
+    }
 }
+/// std ranges over `Key` as heed accepts them (`RangeBounds<Key>`)
+pub trait KeyRange { spec fn sel(&self) -> Sel; }
+impl KeyRange for core::ops::Range<Key> { open spec fn sel(&self) -> Sel { Sel::Rng(Bound::Incl(self.start.a()), Bound::Excl(self.end.a())) } }
+impl KeyRange for core::ops::RangeInclusive<Key> { open spec fn sel(&self) -> Sel { Sel::Rng(Bound::Incl(self@.start.a()), Bound::Incl(self@.end.a())) } }
+impl KeyRange for core::ops::RangeFrom<Key> { open spec fn sel(&self) -> Sel { Sel::Rng(Bound::Incl(self.start.a()), Bound::Unbounded) } }
+impl KeyRange for core::ops::RangeTo<Key> { open spec fn sel(&self) -> Sel { Sel::Rng(Bound::Unbounded, Bound::Excl(self.end.a())) } }
+impl KeyRange for core::ops::RangeToInclusive<Key> { open spec fn sel(&self) -> Sel { Sel::Rng(Bound::Unbounded, Bound::Incl(self.end.a())) } }
+impl KeyRange for core::ops::RangeFull { open spec fn sel(&self) -> Sel { Sel::Rng(Bound::Unbounded, Bound::Unbounded) } }
+
+/// `keys` is exactly the listing (ascending, or descending when `rev`) of the keys of `v` selected by `s`
+pub open spec fn is_listing_dir(v: DbView, s: Sel, keys: Seq<AKey>, rev: bool) -> bool {
+    (forall|i: int, j: int| 0 <= i < j < keys.len() ==> if rev { akey_lt(keys[j], keys[i]) } else { akey_lt(keys[i], keys[j]) })
+    && (forall|i: int| 0 <= i < keys.len() ==> v.contains_key(#[trigger] keys[i]) && s.has(keys[i]))
+    && (forall|k: AKey| #[trigger] v.contains_key(k) && s.has(k) ==> keys.contains(k))
+}
+pub open spec fn is_listing(v: DbView, p: Prefix, keys: Seq<AKey>) -> bool { is_listing_dir(v, Sel::Pre(p), keys, false) }
 
 pub struct PutFlags { pub append: bool }
 impl PutFlags {
@@ -259,16 +283,10 @@ impl PutFlags {
     pub fn empty() -> (r: PutFlags) ensures !r.append { PutFlags { append: false } }
 }
 
-/// what a value read through a given codec tells about the stored abstract value
-pub trait Decoded: Sized { spec fn matches(&self, a: AVal) -> bool; }
-impl Decoded for () { open spec fn matches(&self, a: AVal) -> bool { true } }
-impl Decoded for Node { open spec fn matches(&self, a: AVal) -> bool { self.aval() == a } }
-
 pub struct Metadata { pub dimensions: u32, pub items: RoaringBitmap, pub roots: ItemIds, pub distance: Name }
 impl Metadata {
     pub open spec fn mv(&self) -> MetaV { MetaV { dimensions: self.dimensions, items: self.items@, roots: self.roots@, distance: self.distance } }
 }
-impl Decoded for Metadata { open spec fn matches(&self, a: AVal) -> bool { a == AVal::Meta(self.mv()) } }
 pub struct Version { pub major: u32, pub minor: u32, pub patch: u32 }
 
 #[verifier::external_body]
@@ -284,72 +302,69 @@ impl ItemIds {
     pub fn to_vec_(&self) -> (r: Vec<u32>) ensures r@ == self@ { unimplemented!() }
 }
 
-/// Encoded bytes of a tree node (what TmpNodes stage and what ImmutableTrees read)
+/// Encoded bytes of a tree node or leaf (what TmpNodes stage and what the frozen readers map)
 #[verifier::external_body]
 pub struct NodeBytes { x: Vec<u8> }
 impl NodeBytes { pub uninterp spec fn aval(&self) -> AVal; }
-impl Decoded for NodeBytes { open spec fn matches(&self, a: AVal) -> bool { self.aval() == a } }
 
-#[derive(Copy, Clone)]
-pub struct Database { pub x: u8 }
+// ---- heed type-state: data codecs (key codecs carry no information here: every key is a `Key`) ----
+pub trait DataCodec {
+    type EItem;
+    type DItem;
+    spec fn enc_val(e: &Self::EItem) -> AVal;
+    spec fn dec_ok(d: &Self::DItem, a: AVal) -> bool;
+}
+pub struct Unit {}
+pub struct DecodeIgnore {}
+pub struct Bytes {}
+pub struct MetadataCodec {}
+pub struct VersionCodec {}
+pub struct NodeCodec {}
+pub struct KeyCodec {}
+pub struct PrefixCodec {}
+impl DataCodec for Unit { type EItem = (); type DItem = ();
+    open spec fn enc_val(e: &()) -> AVal { AVal::Unit } open spec fn dec_ok(d: &(), a: AVal) -> bool { true } }
+impl DataCodec for DecodeIgnore { type EItem = (); type DItem = ();
+    open spec fn enc_val(e: &()) -> AVal { AVal::Unit } open spec fn dec_ok(d: &(), a: AVal) -> bool { true } }
+impl DataCodec for Bytes { type EItem = NodeBytes; type DItem = NodeBytes;
+    open spec fn enc_val(e: &NodeBytes) -> AVal { e.aval() } open spec fn dec_ok(d: &NodeBytes, a: AVal) -> bool { d.aval() == a } }
+impl DataCodec for MetadataCodec { type EItem = Metadata; type DItem = Metadata;
+    open spec fn enc_val(e: &Metadata) -> AVal { AVal::Meta(e.mv()) } open spec fn dec_ok(d: &Metadata, a: AVal) -> bool { a == AVal::Meta(d.mv()) } }
+impl DataCodec for VersionCodec { type EItem = Version; type DItem = Version;
+    open spec fn enc_val(e: &Version) -> AVal { AVal::Version(e.major, e.minor, e.patch) } open spec fn dec_ok(d: &Version, a: AVal) -> bool { a == AVal::Version(d.major, d.minor, d.patch) } }
+impl DataCodec for NodeCodec { type EItem = Node; type DItem = Node;
+    open spec fn enc_val(e: &Node) -> AVal { e.aval() } open spec fn dec_ok(d: &Node, a: AVal) -> bool { d.aval() == a } }
+
+pub struct DatabaseG<DC> { pub x: u8, pub _m: core::marker::PhantomData<DC> }
+impl<DC> Clone for DatabaseG<DC> { fn clone(&self) -> Self { DatabaseG { x: self.x, _m: core::marker::PhantomData } } }
+impl<DC> Copy for DatabaseG<DC> {}
+pub type Database = DatabaseG<NodeCodec>;
 
 pub open spec fn put_post<T>(r: heed::Result<T>, old: DbView, new: DbView, k: AKey, v: AVal) -> bool {
     is_heed(r) && match r { Ok(_) => new == old.insert(k, v), Err(_) => new == old }
 }
 
-impl Database {
-    // -- point reads
+impl<DC: DataCodec> DatabaseG<DC> {
+    pub fn remap_data_type<DC2: DataCodec>(&self) -> (r: DatabaseG<DC2>) { DatabaseG { x: self.x, _m: core::marker::PhantomData } }
+    pub fn remap_key_type<KC>(&self) -> (r: DatabaseG<DC>) { DatabaseG { x: self.x, _m: core::marker::PhantomData } }
+    pub fn remap_types<KC, DC2: DataCodec>(&self) -> (r: DatabaseG<DC2>) { DatabaseG { x: self.x, _m: core::marker::PhantomData } }
+    // -- point reads / writes
     #[verifier::external_body]
-    pub fn get(&self, rtxn: &Txn, key: &Key) -> (r: heed::Result<Option<Node>>)
+    pub fn get(&self, rtxn: &Txn, key: &Key) -> (r: heed::Result<Option<DC::DItem>>)
         ensures is_heed(r), match r {
-            Ok(Some(n)) => rtxn.view().contains_key(key.a()) && n.aval() == rtxn.view()[key.a()],
+            Ok(Some(n)) => rtxn.view().contains_key(key.a()) && DC::dec_ok(&n, rtxn.view()[key.a()]),
             Ok(None) => !rtxn.view().contains_key(key.a()),
             Err(_) => true }
     { unimplemented!() }
     #[verifier::external_body]
-    pub fn get__DecodeIgnore(&self, rtxn: &Txn, key: &Key) -> (r: heed::Result<Option<()>>)
-        ensures is_heed(r), match r { Ok(o) => (o is Some) == rtxn.view().contains_key(key.a()), Err(_) => true }
-    { unimplemented!() }
-    #[verifier::external_body]
-    pub fn get__MetadataCodec(&self, rtxn: &Txn, key: &Key) -> (r: heed::Result<Option<Metadata>>)
-        ensures is_heed(r), match r {
-            Ok(Some(m)) => rtxn.view().contains_key(key.a()) && rtxn.view()[key.a()] == AVal::Meta(m.mv()),
-            Ok(None) => !rtxn.view().contains_key(key.a()),
-            Err(_) => true }
-    { unimplemented!() }
-    #[verifier::external_body]
-    pub fn get__Bytes(&self, rtxn: &Txn, key: &Key) -> (r: heed::Result<Option<NodeBytes>>)
-        ensures is_heed(r), match r {
-            Ok(Some(n)) => rtxn.view().contains_key(key.a()) && n.aval() == rtxn.view()[key.a()],
-            Ok(None) => !rtxn.view().contains_key(key.a()),
-            Err(_) => true }
-    { unimplemented!() }
-    // -- point writes
-    #[verifier::external_body]
-    pub fn put(&self, wtxn: &mut Txn, key: &Key, v: &Node) -> (r: heed::Result<()>)
-        ensures is_heed(r), put_post(r, old(wtxn).view(), final(wtxn).view(), key.a(), v.aval())
-    { unimplemented!() }
-    #[verifier::external_body]
-    pub fn put__Unit(&self, wtxn: &mut Txn, key: &Key, v: &()) -> (r: heed::Result<()>)
-        ensures is_heed(r), put_post(r, old(wtxn).view(), final(wtxn).view(), key.a(), AVal::Unit)
-    { unimplemented!() }
-    #[verifier::external_body]
-    pub fn put__Bytes(&self, wtxn: &mut Txn, key: &Key, v: &NodeBytes) -> (r: heed::Result<()>)
-        ensures is_heed(r), put_post(r, old(wtxn).view(), final(wtxn).view(), key.a(), v.aval())
-    { unimplemented!() }
-    #[verifier::external_body]
-    pub fn put__MetadataCodec(&self, wtxn: &mut Txn, key: &Key, v: &Metadata) -> (r: heed::Result<()>)
-        ensures is_heed(r), put_post(r, old(wtxn).view(), final(wtxn).view(), key.a(), AVal::Meta(v.mv()))
-    { unimplemented!() }
-    #[verifier::external_body]
-    pub fn put__VersionCodec(&self, wtxn: &mut Txn, key: &Key, v: &Version) -> (r: heed::Result<()>)
-        ensures is_heed(r), put_post(r, old(wtxn).view(), final(wtxn).view(), key.a(), AVal::Version(v.major, v.minor, v.patch))
+    pub fn put(&self, wtxn: &mut Txn, key: &Key, v: &DC::EItem) -> (r: heed::Result<()>)
+        ensures put_post(r, old(wtxn).view(), final(wtxn).view(), key.a(), DC::enc_val(v))
     { unimplemented!() }
     /// MDB_APPEND: fails with KeyExist iff the key is not greater than every key of the database
     #[verifier::external_body]
-    pub fn put_with_flags(&self, wtxn: &mut Txn, flags: PutFlags, key: &Key, v: &Node) -> (r: heed::Result<()>)
+    pub fn put_with_flags(&self, wtxn: &mut Txn, flags: PutFlags, key: &Key, v: &DC::EItem) -> (r: heed::Result<()>)
         ensures is_heed(r),
-            match r { Ok(_) => final(wtxn).view() == old(wtxn).view().insert(key.a(), v.aval()), Err(_) => final(wtxn).view() == old(wtxn).view() },
+            match r { Ok(_) => final(wtxn).view() == old(wtxn).view().insert(key.a(), DC::enc_val(v)), Err(_) => final(wtxn).view() == old(wtxn).view() },
             flags.append ==> ((r matches Err(Error::Heed(HeedError::Mdb(MdbError::KeyExist))))
                 <==> exists|k: AKey| old(wtxn).view().contains_key(k) && !akey_lt(k, key.a())),
             !flags.append ==> !(r matches Err(Error::Heed(HeedError::Mdb(MdbError::KeyExist)))),
@@ -361,79 +376,99 @@ impl Database {
             Err(_) => final(wtxn).view() == old(wtxn).view() }
     { unimplemented!() }
     #[verifier::external_body]
-    pub fn delete__Bytes(&self, wtxn: &mut Txn, key: &Key) -> (r: heed::Result<bool>)
-        ensures is_heed(r), match r {
-            Ok(b) => b == old(wtxn).view().contains_key(key.a()) && final(wtxn).view() == old(wtxn).view().remove(key.a()),
-            Err(_) => final(wtxn).view() == old(wtxn).view() }
-    { unimplemented!() }
-    /// rule R7 target for `delete_range(wtxn, &(lo..=hi))`
-    #[verifier::external_body]
-    pub fn delete_range_inclusive__Bytes(&self, wtxn: &mut Txn, lo: &Key, hi: &Key) -> (r: heed::Result<usize>)
+    pub fn delete_range<R: KeyRange>(&self, wtxn: &mut Txn, range: &R) -> (r: heed::Result<usize>)
         ensures is_heed(r), match r {
             Ok(_) => forall|k: AKey| (#[trigger] final(wtxn).view().contains_key(k) ==
-                    (old(wtxn).view().contains_key(k) && !(!akey_lt(k, lo.a()) && !akey_lt(hi.a(), k))))
+                    (old(wtxn).view().contains_key(k) && !range.sel().has(k)))
                 && (final(wtxn).view().contains_key(k) ==> final(wtxn).view()[k] == old(wtxn).view()[k]),
             Err(_) => final(wtxn).view() == old(wtxn).view() }
     { unimplemented!() }
-    // -- prefix scans (read only)
     #[verifier::external_body]
-    pub fn prefix_iter__PrefixCodec_DecodeIgnore(&self, rtxn: &Txn, p: &Prefix) -> (r: heed::Result<RoIter<()>>)
+    pub fn len(&self, rtxn: &Txn) -> (r: heed::Result<u64>)
+        ensures is_heed(r), r matches Ok(n) ==> n == rtxn.view().dom().len()
+    { unimplemented!() }
+    // -- scans (read only)
+    #[verifier::external_body]
+    pub fn prefix_iter(&self, rtxn: &Txn, p: &Prefix) -> (r: heed::Result<RoIter<DC>>)
         ensures is_heed(r), r matches Ok(it) ==> it.wf(rtxn.view(), *p) && it.pos@ == 0 && it.faulty@ == rtxn.read_faulty()
     { unimplemented!() }
     #[verifier::external_body]
-    pub fn prefix_iter__PrefixCodec(&self, rtxn: &Txn, p: &Prefix) -> (r: heed::Result<RoIter<Node>>)
-        ensures is_heed(r), r matches Ok(it) ==> it.wf(rtxn.view(), *p) && it.pos@ == 0 && it.faulty@ == rtxn.read_faulty()
+    pub fn range<R: KeyRange>(&self, rtxn: &Txn, range: &R) -> (r: heed::Result<RoIter<DC>>)
+        ensures is_heed(r), r matches Ok(it) ==> it.wf_sel(rtxn.view(), range.sel(), false) && it.pos@ == 0 && it.faulty@ == rtxn.read_faulty()
     { unimplemented!() }
     #[verifier::external_body]
-    pub fn prefix_iter__PrefixCodec_Bytes(&self, rtxn: &Txn, p: &Prefix) -> (r: heed::Result<RoIter<NodeBytes>>)
-        ensures is_heed(r), r matches Ok(it) ==> it.wf(rtxn.view(), *p) && it.pos@ == 0 && it.faulty@ == rtxn.read_faulty()
-    { unimplemented!() }
-    // -- prefix scans with a mutable cursor (rule R9: the borrowed txn is passed at each cursor call)
-    #[verifier::external_body]
-    pub fn prefix_iter_mut__PrefixCodec(&self, wtxn: &mut Txn, p: &Prefix) -> (r: heed::Result<RwCursor<Node>>)
-        ensures is_heed(r), final(wtxn).view() == old(wtxn).view(), r matches Ok(it) ==> it.fresh(old(wtxn).view(), *p)
+    pub fn rev_range<R: KeyRange>(&self, rtxn: &Txn, range: &R) -> (r: heed::Result<RoIter<DC>>)
+        ensures is_heed(r), r matches Ok(it) ==> it.wf_sel(rtxn.view(), range.sel(), true) && it.pos@ == 0 && it.faulty@ == rtxn.read_faulty()
     { unimplemented!() }
     #[verifier::external_body]
-    pub fn prefix_iter_mut__PrefixCodec_DecodeIgnore(&self, wtxn: &mut Txn, p: &Prefix) -> (r: heed::Result<RwCursor<()>>)
-        ensures is_heed(r), final(wtxn).view() == old(wtxn).view(), r matches Ok(it) ==> it.fresh(old(wtxn).view(), *p)
+    pub fn iter(&self, rtxn: &Txn) -> (r: heed::Result<RoIter<DC>>)
+        ensures is_heed(r), r matches Ok(it) ==> it.wf_sel(rtxn.view(), Sel::Rng(Bound::Unbounded, Bound::Unbounded), false) && it.pos@ == 0 && it.faulty@ == rtxn.read_faulty()
+    { unimplemented!() }
+    // -- scans with a mutable cursor (rule R9: the borrowed txn is passed at each cursor call)
+    #[verifier::external_body]
+    pub fn prefix_iter_mut(&self, wtxn: &mut Txn, p: &Prefix) -> (r: heed::Result<RwCursor<DC>>)
+        ensures is_heed(r), final(wtxn).view() == old(wtxn).view(), r matches Ok(it) ==> it.fresh(old(wtxn).view(), Sel::Pre(*p), false)
+    { unimplemented!() }
+    #[verifier::external_body]
+    pub fn range_mut<R: KeyRange>(&self, wtxn: &mut Txn, range: &R) -> (r: heed::Result<RwCursor<DC>>)
+        ensures is_heed(r), final(wtxn).view() == old(wtxn).view(), r matches Ok(it) ==> it.fresh(old(wtxn).view(), range.sel(), false)
+    { unimplemented!() }
+    #[verifier::external_body]
+    pub fn rev_range_mut<R: KeyRange>(&self, wtxn: &mut Txn, range: &R) -> (r: heed::Result<RwCursor<DC>>)
+        ensures is_heed(r), final(wtxn).view() == old(wtxn).view(), r matches Ok(it) ==> it.fresh(old(wtxn).view(), range.sel(), true)
     { unimplemented!() }
 }
 
-pub struct RoIter<V> { pub keys: Ghost<Seq<AKey>>, pub pos: Ghost<int>, pub snap: Ghost<DbView>, pub prefix: Ghost<Prefix>, pub faulty: Ghost<bool>, pub _v: core::marker::PhantomData<V> }
-impl<V: Decoded> RoIter<V> {
-    pub open spec fn wf(&self, v: DbView, p: Prefix) -> bool {
-        self.snap@ == v && self.prefix@ == p && is_listing(v, p, self.keys@) && 0 <= self.pos@ <= self.keys@.len()
+pub struct RoIter<DC> { pub keys: Ghost<Seq<AKey>>, pub pos: Ghost<int>, pub snap: Ghost<DbView>, pub sel: Ghost<Sel>, pub rev: Ghost<bool>, pub faulty: Ghost<bool>, pub _v: core::marker::PhantomData<DC> }
+impl<DC: DataCodec> RoIter<DC> {
+    pub open spec fn wf_sel(&self, v: DbView, s: Sel, rev: bool) -> bool {
+        self.snap@ == v && self.sel@ == s && self.rev@ == rev && is_listing_dir(v, s, self.keys@, rev) && 0 <= self.pos@ <= self.keys@.len()
     }
-    /// None = end of the listing; Some(Err) = read error (position unspecified afterwards)
+    pub open spec fn wf(&self, v: DbView, p: Prefix) -> bool { self.wf_sel(v, Sel::Pre(p), false) }
+    pub fn remap_key_type<KC>(self) -> (r: RoIter<DC>) ensures r == self { self }
+    pub fn remap_data_type<DC2: DataCodec>(self) -> (r: RoIter<DC2>)
+        ensures r.keys == self.keys, r.pos == self.pos, r.snap == self.snap, r.sel == self.sel, r.rev == self.rev, r.faulty == self.faulty
+    { RoIter { keys: self.keys, pos: self.pos, snap: self.snap, sel: self.sel, rev: self.rev, faulty: self.faulty, _v: core::marker::PhantomData } }
+    pub fn remap_types<KC, DC2: DataCodec>(self) -> (r: RoIter<DC2>)
+        ensures r.keys == self.keys, r.pos == self.pos, r.snap == self.snap, r.sel == self.sel, r.rev == self.rev, r.faulty == self.faulty
+    { RoIter { keys: self.keys, pos: self.pos, snap: self.snap, sel: self.sel, rev: self.rev, faulty: self.faulty, _v: core::marker::PhantomData } }
+    /// None = end of the listing; Some(Err) = read error (possible only on a `read_faulty` transaction)
     #[verifier::external_body]
-    pub fn next(&mut self) -> (r: Option<heed::Result<(Key, V)>>)
+    pub fn next(&mut self) -> (r: Option<heed::Result<(Key, DC::DItem)>>)
         requires 0 <= old(self).pos@ <= old(self).keys@.len()
         ensures
-            final(self).keys == old(self).keys, final(self).snap == old(self).snap, final(self).prefix == old(self).prefix,
+            final(self).keys == old(self).keys, final(self).snap == old(self).snap, final(self).sel == old(self).sel,
+            final(self).rev == old(self).rev, final(self).faulty == old(self).faulty,
             match r {
                 None => old(self).pos@ == old(self).keys@.len() && final(self).pos == old(self).pos,
                 Some(Ok((k, v))) => old(self).pos@ < old(self).keys@.len() && k.a() == old(self).keys@[old(self).pos@]
                     && k._padding == 0
                     // consequence of is_listing, stated for convenience
-                    && (is_listing(old(self).snap@, old(self).prefix@, old(self).keys@) ==>
-                        old(self).snap@.contains_key(k.a()) && old(self).prefix@.matches(k.a()))
-                    && v.matches(old(self).snap@[k.a()]) && final(self).pos@ == old(self).pos@ + 1,
+                    && (is_listing_dir(old(self).snap@, old(self).sel@, old(self).keys@, old(self).rev@) ==>
+                        old(self).snap@.contains_key(k.a()) && old(self).sel@.has(k.a()))
+                    && DC::dec_ok(&v, old(self).snap@[k.a()]) && final(self).pos@ == old(self).pos@ + 1,
                 Some(Err(e)) => e is Heed && final(self).pos == old(self).pos && old(self).faulty@,
             },
-            final(self).faulty == old(self).faulty,
     { unimplemented!() }
 }
 
 /// Mutable cursor. `cur` is the view the cursor expects the transaction to have (all mutation
 /// while the cursor lives goes through the cursor: enforced by the borrow checker on the real code,
 /// by `requires wtxn.view() == self.cur@` here).
-pub struct RwCursor<V> { pub keys: Ghost<Seq<AKey>>, pub pos: Ghost<int>, pub cur: Ghost<DbView>, pub live: Ghost<bool>, pub _v: core::marker::PhantomData<V> }
-impl<V: Decoded> RwCursor<V> {
-    pub open spec fn fresh(&self, v: DbView, p: Prefix) -> bool {
-        self.cur@ == v && is_listing(v, p, self.keys@) && self.pos@ == 0 && !self.live@
+pub struct RwCursor<DC> { pub keys: Ghost<Seq<AKey>>, pub pos: Ghost<int>, pub cur: Ghost<DbView>, pub live: Ghost<bool>, pub _v: core::marker::PhantomData<DC> }
+impl<DC: DataCodec> RwCursor<DC> {
+    pub open spec fn fresh(&self, v: DbView, s: Sel, rev: bool) -> bool {
+        self.cur@ == v && is_listing_dir(v, s, self.keys@, rev) && self.pos@ == 0 && !self.live@
     }
+    pub fn remap_key_type<KC>(self) -> (r: RwCursor<DC>) ensures r == self { self }
+    pub fn remap_data_type<DC2: DataCodec>(self) -> (r: RwCursor<DC2>)
+        ensures r.keys == self.keys, r.pos == self.pos, r.cur == self.cur, r.live == self.live
+    { RwCursor { keys: self.keys, pos: self.pos, cur: self.cur, live: self.live, _v: core::marker::PhantomData } }
+    pub fn remap_types<KC, DC2: DataCodec>(self) -> (r: RwCursor<DC2>)
+        ensures r.keys == self.keys, r.pos == self.pos, r.cur == self.cur, r.live == self.live
+    { RwCursor { keys: self.keys, pos: self.pos, cur: self.cur, live: self.live, _v: core::marker::PhantomData } }
     #[verifier::external_body]
-    pub fn next(&mut self, wtxn: &mut Txn) -> (r: Option<heed::Result<(Key, V)>>)
+    pub fn next(&mut self, wtxn: &mut Txn) -> (r: Option<heed::Result<(Key, DC::DItem)>>)
         requires old(wtxn).view() == old(self).cur@, 0 <= old(self).pos@ <= old(self).keys@.len()
         ensures
             final(wtxn).view() == old(wtxn).view(),
@@ -442,7 +477,7 @@ impl<V: Decoded> RwCursor<V> {
                 None => old(self).pos@ == old(self).keys@.len() && final(self).pos == old(self).pos && !final(self).live@,
                 Some(Ok((k, v))) => old(self).pos@ < old(self).keys@.len() && k.a() == old(self).keys@[old(self).pos@]
                     && k._padding == 0
-                    && v.matches(old(wtxn).view()[k.a()]) && final(self).pos@ == old(self).pos@ + 1 && final(self).live@,
+                    && DC::dec_ok(&v, old(wtxn).view()[k.a()]) && final(self).pos@ == old(self).pos@ + 1 && final(self).live@,
                 Some(Err(e)) => e is Heed && final(self).pos == old(self).pos && !final(self).live@,
             }
     { unimplemented!() }
@@ -457,25 +492,25 @@ impl<V: Decoded> RwCursor<V> {
                 Err(_) => final(wtxn).view() == old(wtxn).view() }
     { unimplemented!() }
     #[verifier::external_body]
-    pub fn put_current(&mut self, wtxn: &mut Txn, key: &Key, v: &Node) -> (r: heed::Result<bool>)
+    pub fn put_current(&mut self, wtxn: &mut Txn, key: &Key, v: &DC::EItem) -> (r: heed::Result<bool>)
         requires old(wtxn).view() == old(self).cur@, old(self).live@, 0 < old(self).pos@ <= old(self).keys@.len(),
             key.a() == old(self).keys@[old(self).pos@ - 1]
         ensures is_heed(r),
             final(self).keys == old(self).keys, final(self).pos == old(self).pos, final(self).cur@ == final(wtxn).view(),
             final(self).live@,
             match r {
-                Ok(_) => final(wtxn).view() == old(wtxn).view().insert(key.a(), v.aval()),
+                Ok(_) => final(wtxn).view() == old(wtxn).view().insert(key.a(), DC::enc_val(v)),
                 Err(_) => final(wtxn).view() == old(wtxn).view() }
     { unimplemented!() }
     #[verifier::external_body]
-    pub fn put_current_with_options(&mut self, wtxn: &mut Txn, flags: PutFlags, key: &Key, v: &Node) -> (r: heed::Result<()>)
+    pub fn put_current_with_options<DC2: DataCodec>(&mut self, wtxn: &mut Txn, flags: PutFlags, key: &Key, v: &DC2::EItem) -> (r: heed::Result<()>)
         requires old(wtxn).view() == old(self).cur@, old(self).live@, 0 < old(self).pos@ <= old(self).keys@.len(),
             key.a() == old(self).keys@[old(self).pos@ - 1], !flags.append
         ensures is_heed(r),
             final(self).keys == old(self).keys, final(self).pos == old(self).pos, final(self).cur@ == final(wtxn).view(),
             final(self).live@,
             match r {
-                Ok(_) => final(wtxn).view() == old(wtxn).view().insert(key.a(), v.aval()),
+                Ok(_) => final(wtxn).view() == old(wtxn).view().insert(key.a(), DC2::enc_val(v)),
                 Err(_) => final(wtxn).view() == old(wtxn).view() }
     { unimplemented!() }
 }
@@ -492,3 +527,33 @@ impl BuildOption {
 
 pub struct PathBuf { pub x: u8 }
 pub struct Writer { pub database: Database, pub index: u16, pub dimensions: usize, pub tmpdir: Option<PathBuf> }
+
+// ---- reader side ---------------------------------------------------------------------------------
+pub mod marker { pub use core::marker::PhantomData; }
+pub struct Reader { pub database: Database, pub index: u16, pub roots: ItemIds, pub dimensions: usize, pub items: RoaringBitmap, pub _marker: core::marker::PhantomData<Dist> }
+
+pub trait TryIntoUnwrap<T>: Sized {
+    spec fn tiu_ok(self) -> bool;
+    spec fn tiu_val(self) -> T;
+    fn try_into_unwrap_(self) -> (r: T) requires self.tiu_ok() ensures r == self.tiu_val();
+}
+impl TryIntoUnwrap<usize> for u32 {
+    open spec fn tiu_ok(self) -> bool { true }
+    open spec fn tiu_val(self) -> usize { self as usize }
+    fn try_into_unwrap_(self) -> (r: usize) { self as usize }
+}
+impl TryIntoUnwrap<u32> for usize {
+    open spec fn tiu_ok(self) -> bool { self <= u32::MAX }
+    open spec fn tiu_val(self) -> u32 { self as u32 }
+    fn try_into_unwrap_(self) -> (r: u32) { self as u32 }
+}
+pub trait MapSome<T, E>: Sized {
+    spec fn map_some_spec(self) -> core::result::Result<Option<T>, E>;
+    fn map_some_(self) -> (r: core::result::Result<Option<T>, E>) ensures r == self.map_some_spec();
+}
+impl<T, E> MapSome<T, E> for core::result::Result<T, E> {
+    open spec fn map_some_spec(self) -> core::result::Result<Option<T>, E> { match self { Ok(v) => Ok(Some(v)), Err(e) => Err(e) } }
+    fn map_some_(self) -> (r: core::result::Result<Option<T>, E>) { match self { Ok(v) => Ok(Some(v)), Err(e) => Err(e) } }
+}
+pub struct ItemIter { pub inner: RoIter<NodeCodec>, pub dimensions: usize }
+pub open spec fn trunc(s: Seq<f32>, n: int) -> Seq<f32> { if n < s.len() { s.subrange(0, n) } else { s } }
